@@ -51,6 +51,16 @@ pub fn gen(prop: &str, scen: &str, _k: u64, seed: u64, tier: &str) -> Case {
                 }
             }
         }
+        "mem.estimator" => {
+            // the estimators alone over the whole range of dictionary sizes (no allocation)
+            case.fmt = "lzma".into();
+            if r_opt.pct(50) {
+                case.opt.lc = r_opt.range(0, 8) as u32;
+                case.opt.lp = r_opt.range(0, 4) as u32;
+            }
+            case.set("extra_dict", r_opt.range(4096, 768 << 20) as i64);
+            case.input = InputSpec::new("empty", 0, 0);
+        }
         "mem.decoder.lzma" => {
             case.fmt = "lzma".into();
             case.set("marker", 1);
@@ -90,6 +100,7 @@ pub fn exec(case: &Case, keep_log: bool) -> RunResult {
     ctx.ev("dict", case.opt.dict as u64);
     ctx.nontrivial = true;
     let v = match case.scen.as_str() {
+        "mem.estimator" => estimators(case, &mut ctx),
         "mem.encoder" => encoder(case, &data, &mut ctx),
         "mem.decoder.lzma" | "mem.decoder.lzma2" => decoder(case, &data, &mut ctx),
         _ => limit(case, &data, &mut ctx),
@@ -294,4 +305,63 @@ fn limit(case: &Case, data: &[u8], ctx: &mut Ctx) -> Option<Violation> {
             None
         }
     }
+}
+
+/// The estimators over dictionary sizes up to the encoder's maximum (768 MiB) and the decoder's
+/// (4 GiB - 1), without allocating anything: they must not panic (overflow checks are on in this
+/// build), must not decrease when the dictionary grows, and can never be below what the window
+/// and the match finder's position table alone need.
+fn estimators(case: &Case, ctx: &mut Ctx) -> Option<Violation> {
+    let mut dicts: Vec<u32> = vec![4096, 4097, 65536, 1 << 20, 3 << 19, 1 << 24, 3 << 23, 1 << 26, 1 << 28, 3 << 27, (1 << 29) - 2, (1 << 29) - 1, 1 << 29, (1 << 29) + 1, 3 << 28];
+    dicts.push((case.knob("extra_dict") as u32).clamp(4096, 3 << 28));
+    dicts.sort();
+    dicts.dedup();
+    ctx.nontrivial = true;
+    let mut prev: Option<(u32, u32)> = None;
+    for &d in &dicts {
+        ctx.evals += 1;
+        let mut o = case.opt.clone();
+        o.dict = d;
+        let opts = codec::lzma_options(&o);
+        let est = match guarded(|| opts.get_memory_usage()) {
+            Ok(e) => e,
+            Err((loc, msg)) => return Some(classify_panic("LZMAOptions", &loc, &format!("get_memory_usage() for dict {d} mode {} mf {}: {msg}", o.mode, o.mf))),
+        };
+        // window >= dict bytes; hash chain: 4 bytes, binary tree: 8 bytes per dictionary position
+        let per_pos: u64 = if o.mf == 0 { 4 } else { 8 };
+        let floor = (d as u64 * (1 + per_pos)) / 1024;
+        if (est as u64) < floor {
+            return Some(Violation::new("estimate-too-low", "LZMAOptions", "estimator-floor", format!("dict {d} mode {} mf {}: estimate {est} KiB is below {floor} KiB, which the window and the match finder's position table alone need", o.mode, o.mf)));
+        }
+        if let Some((pd, pe)) = prev {
+            if est < pe {
+                return Some(Violation::new("estimate-not-monotone", "LZMAOptions", "estimator", format!("mode {} mf {}: estimate for dict {d} is {est} KiB, for the smaller dict {pd} it is {pe} KiB", o.mode, o.mf)));
+            }
+        }
+        prev = Some((d, est));
+    }
+    // decoder side: up to 4 GiB - 1
+    let mut prev: Option<(u32, u32)> = None;
+    for &d in &[4096u32, 1 << 20, 1 << 28, 1 << 30, 3 << 30, u32::MAX - 15, u32::MAX] {
+        ctx.evals += 1;
+        let r = guarded(|| (lz::lzma_get_memory_usage(d, case.opt.lc, case.opt.lp), lz::lzma2_get_memory_usage(d)));
+        let (e1, e2) = match r {
+            Ok(x) => x,
+            Err((loc, msg)) => return Some(classify_panic("decoder estimator", &loc, &format!("dict {d}: {msg}"))),
+        };
+        if let Ok(e1) = e1 {
+            let floor = d / 1024;
+            if e1 < floor || e2 < floor {
+                return Some(Violation::new("estimate-too-low", "decoder estimator", "estimator-floor", format!("dict {d}: lzma {e1} KiB / lzma2 {e2} KiB below the dictionary itself ({floor} KiB)")));
+            }
+            if let Some((pd, pe)) = prev {
+                if e1 < pe {
+                    return Some(Violation::new("estimate-not-monotone", "decoder estimator", "estimator", format!("estimate for dict {d} is {e1} KiB, for the smaller dict {pd} it is {pe} KiB")));
+                }
+            }
+            prev = Some((d, e1));
+        }
+    }
+    ctx.distinct_sub = dicts.len() as u64;
+    None
 }
